@@ -262,6 +262,47 @@ class ShapeSort(Sort):
         return SRecord(self.cls, fields), a
 
 
+def _gen_shape(rng, cls):
+    """a scalar shape as a typed record: closed rectangular rings (valid: first ring the shell, others inside it)"""
+    cx, cy = rng.randint(-2, 3), rng.randint(-2, 3)
+    w, h = rng.randint(2, 3), rng.randint(2, 3)
+    rings = [[cx - w, cy - h, cx + w, cy - h, cx + w, cy + h, cx - w, cy + h, cx - w, cy - h]]
+    if cls != 'MultiPoint' and rng.random() < 0.5:
+        rings.append([cx - 1, cy - 1, cx - 1, cy + 1, cx + 1, cy + 1, cx + 1, cy - 1, cx - 1, cy - 1])
+    if rng.random() < 0.3:
+        rings = [[c for p_ in list(zip(r[0::2], r[1::2]))[::-1] for c in p_] for r in rings]
+    vals = [float(c).hex() for r in rings for c in r]
+    fields = {'buffer_values': {'k': 'array', 'dtype': 'float64', 'shape': [len(vals)], 'data': vals}}
+    fields['flat_values'] = fields['buffer_values']
+    if cls != 'MultiPoint':
+        offs = [0]
+        for r in rings:
+            offs.append(offs[-1] + len(r))
+        fields['buffer_inner_offsets'] = {'k': 'array', 'dtype': 'uint32', 'shape': [len(offs)], 'data': offs}
+    return {'k': 'record', 'cls': cls, 'fields': fields}
+
+
+def _gen_intersects(pname):
+    def gen(rng, config):
+        me = PointArraySort(bool(config.get('validity', True))).gen(rng, config)
+        n = me['fields']['data']['fields']['length']['v']
+        if n == 0 and rng.random() < 0.8:
+            me = PointArraySort(bool(config.get('validity', True))).gen(rng, config)
+            n = me['fields']['data']['fields']['length']['v']
+        shape = _gen_shape(rng, config.get('shape', 'Polygon'))
+        if config.get('inds') == 'given':
+            if n and rng.random() < 0.45:
+                idx = list(range(n))
+                rng.shuffle(idx)           # every position once, in another order
+            else:
+                idx = [rng.randrange(n) for _ in range(rng.randint(0, 5))] if n else []
+            inds = {'k': 'array', 'dtype': 'int64', 'shape': [len(idx)], 'data': idx}
+        else:
+            inds = {'k': 'none'}
+        return [me, shape, inds]
+    return gen
+
+
 def register_intersects(reg):
     def S(cfg):
         return PointArraySort(bool(cfg.get('validity', True)))
@@ -310,7 +351,7 @@ def register_intersects(reg):
     reg.add(Contract(PT + '::PointArray.intersects', params, returns=Arr('bool'), requires=req, ensures=ens,
                      configs=POLY_CFG + [{'validity': v, 'inds': m, 'shape': 'MultiPoint'} for v in (True, False)
                                          for m in ('none', 'given')],
-                     props=('C02', 'C17', 'C05'), fuel=0))
+                     props=('C02', 'C17', 'C05'), fuel=0, gen=_gen_intersects('shape')))
 
     def helper(name, shapes):
         def hens(c, r):
@@ -341,6 +382,6 @@ def register_intersects(reg):
         reg.add(Contract(PT + '::PointArray.' + name, hparams, returns=Arr('bool'), requires=adapt(req), ensures=adapt(hens),
                          configs=[{'validity': v, 'inds': m, 'shape': k} for v in (True, False) for m in ('none', 'given')
                                   for k in shapes],
-                         props=('C02', 'C05'), fuel=2))
+                         props=('C02', 'C05'), fuel=2, gen=_gen_intersects(pname)))
     helper('_intersects_polygon', ['Polygon', 'MultiPolygon'])
     helper('_intersects_multipoint', ['MultiPoint'])
